@@ -259,7 +259,7 @@ static std::string handleGen(const std::vector<std::string>& a) {
         G = BookSession();
         G.book.reset(new Book("", d, o, t));
         G.order.push_back(BookBuildTest::rootKey(*G.book));
-        return "book new " + std::to_string(d) + " " + std::to_string(o) + " " + std::to_string(t);
+        return "book new " + std::to_string(d) + " " + std::to_string(o) + " " + std::to_string(t) + " " + vHex(G.order[0]);
     }
     if (!G.book) return "bad-op";
     Book& b = *G.book;
@@ -402,12 +402,14 @@ static std::string handleBook(const std::vector<std::string>& a) {
     if (a.empty()) return "bad-op";
     const std::string& op = a[0];
     size_t n = a.size();
-    if (op == "new" && n == 4) {
+    if (op == "new" && n == 5) {
         long long d = vToInt(a[1]), o = vToInt(a[2]), t = vToInt(a[3]);
+        U64 rk = vToU64(a[4]);
         if (d < 0 || o < 0 || t < 0 || d > 100000 || o > 100000 || t > 100000) return "bad-op";
         D = BookSession();
         D.book.reset(new Book("", (int)d, (int)o, (int)t));
         D.order.push_back(BookBuildTest::rootKey(*D.book));
+        if (rk != D.order[0]) { D = BookSession(); return "key-mismatch"; }
         return diffReply(D, false);
     }
     if (!D.book) return "bad-op";
